@@ -562,7 +562,7 @@ func zeroFields(h map[string]SV, recv string, t types.Type) {
 	}
 	for i := 0; i < st.NumFields(); i++ {
 		f := st.Field(i)
-		key := recv + "." + f.Name()
+		key := recv + "." + canonFieldName(f) // (the name the evaluator reads and writes the field under)
 		switch u := f.Type().Underlying().(type) {
 		case *types.Basic:
 			switch {
